@@ -25,3 +25,13 @@ package meterpb
 //@   requires isMR(n) && m != nil && m.meterReading != nil
 //@   ensures [end] mrOf(n).EndTime != nil && fresh(mrOf(n).EndTime)
 //@   ensures [usage] mrOf(n).Usage == old(mrOf(n).Usage) && mrOf(n).StartTime == old(mrOf(n).StartTime)
+//@
+//@ // RecordReading itself: ONE write, masked to the usage and the end of the period: the start of the period (and what was
+//@ // produced) is not part of the write, so start and end stay consistent (the start is kept, the end moves forward)
+//@ func (*Model).RecordReading(val) (res, err)
+//@   option only post
+//@   track WithUpdatePaths
+//@   track UpdateMeterReading
+//@   ensures [one-write] calls(UpdateMeterReading) == old(calls(UpdateMeterReading)) + 1 && res == lastcall(UpdateMeterReading, 0) && err == lastcall(UpdateMeterReading, 1)
+//@   ensures [masked] calls(WithUpdatePaths) == old(calls(WithUpdatePaths)) + 1 && len(lastarg(WithUpdatePaths, 0)) == 2 && lastargelem(WithUpdatePaths, 0, 0) == "usage" && lastargelem(WithUpdatePaths, 0, 1) == "end_time"
+//@   replay MeterRecordKeepsStart()
